@@ -114,7 +114,7 @@ def run():
 
     def cl_names(case):
         # F18, F32, F31, F33 are FIXED (68466ba, b5c2cd4, 75c6718, 99a89d3): nothing excuses them any more
-        if case.get("kind") == "e2e" and f33b_case(case, dinfo.get("col_prefix", "_expr_")):
+        if case.get("kind") == "e2e" and not dinfo.get("col_names_reserved") and f33b_case(case, dinfo.get("col_prefix", "_expr_")):
             return "F33b-generated-column-name-case-clash"
         return None
 
@@ -491,13 +491,19 @@ def run():
         elif len(ck.coverage["samples"]) < 10 and i % 397 == 0:
             ck.sample({"prql": t["src"], "sql": a["ok"], "rows": got[:2]})
     # ------------------------------------------------------------ 4. Model/NameGen.v vs every real call of the modelled sites
-    # (verification hooks of /repo: 44c332e `verif:namegen {site, old, used, new}`, d5c1b7e `verif:pq-names {.., reserved}`,
-    # `verif:ensure_column_name` / `_result`; read through the harness command `log`, which collects log messages).
-    # Programs: every directed family about generated names + a sample of the rest.
+    # Verification hooks of /repo, read through the harness command `log`:
+    #   verif:namegen {site, old, used, new, gen_before, gen_after}   anchor_split / assign_names / relvar steps
+    #   verif:namegen-draw {site, name, accepted}                     EVERY name drawn from the table-name generator
+    #   verif:namegen-state {site, at, table_gen, reserved}           generator state around assign_names
+    #   verif:pq-names {.., reserved, reserved_columns?}              the reserved sets
+    #   verif:ensure_column_name / _result, verif:select_item(s), verif:anchor_split {in, mid}
+    # Step level: each call against its model function with the generator state the hook logged (nothing is chained).
+    # List level: the whole assign_names loop, every RelVarNameAssigner scope, every anchor_split call as ONE model run.
     directed = [i for i, t_ in enumerate(tests) if t_["position"] == "generated-like" or any(case_variant_of_generated(n, tp) or case_variant_of_generated(n, cp) for n in t_["names"])]
     rest = [i for i in range(len(tests)) if i not in set(directed)]
     hook_idx = directed + ck.rng.sample(rest, min(len(rest), ck.n(400, 4000)))
     hook_ans = harness("log", [{"src": tests[i]["src"], "target": "sql.sqlite", "want": [], "msg_prefix": "verif:"} for i in hook_idx])
+    repaired = bool(dinfo.get("col_names_reserved"))
 
     def opt(x):
         return "None" if x is None else "(Some %s)" % coq_codes(x)
@@ -505,43 +511,161 @@ def run():
     def lst(xs):
         return "[" + "; ".join(coq_codes(x) for x in xs) + "]"
 
+    def optlst(xs):
+        return "[" + "; ".join(opt(x) for x in xs) + "]"
+
     def idx_of(name, prefix):
-        return int(name[len(prefix):]) if name.startswith(prefix) and name[len(prefix):].isdigit() else None
+        return int(name[len(prefix):]) if isinstance(name, str) and name.startswith(prefix) and name[len(prefix):].isdigit() else None
 
     def decl_term(d):
         if d == "wildcard":
             return "DWild"
         if d == "compute":
             return "DCompute"
-        return "(DSingle %s)" % opt(d["single"])
+        if d == "unnamed":
+            return "(DSingle None)"
+        if isinstance(d, dict) and "single" in d:
+            return "(DSingle %s)" % opt(d["single"])
+        if isinstance(d, dict) and "named" in d:
+            return "(DSingle %s)" % opt(d["named"])
+        return None
 
-    ev_cases = {}      # coq expression -> (expected python value, description)   (deduplicated: most events repeat)
+    ev_cases = {}      # coq expression -> (group, expected python value, site, program)   (deduplicated: most events repeat)
     n_events = 0
+    WANT = ("namegen", "namegen-draw", "namegen-state", "pq-names", "ensure_column_name", "ensure_column_name_result", "select_item", "select_items", "anchor_split")
     for i, a in zip(hook_idx, hook_ans):
-        msgs = [e["Message"] for e in a.get("entries", []) if "Message" in e]
+        src_i = tests[i]["src"]
+        bad = lambda what, **kw: ck.violation(what, dict({"kind": "namegen-hook", "src": src_i}, **kw))
         evs = []
-        for m in msgs:
+        for e_ in a.get("entries", []):
+            m = e_.get("Message", "")
             head, _, body = m.partition(" ")
-            if head in ("verif:namegen", "verif:pq-names", "verif:ensure_column_name", "verif:ensure_column_name_result", "verif:select_item", "verif:select_items"):
+            if head.startswith("verif:") and head[len("verif:"):] in WANT:
                 try:
                     evs.append((head[len("verif:"):], json.loads(body)))
                 except ValueError:
-                    ck.violation("hook message is not JSON: %r" % m[:200], {"kind": "hook-json", "src": tests[i]["src"], "message": m[:400]})
+                    bad("hook message is not JSON: %r" % m[:200])
         pqn = [e for h, e in evs if h == "pq-names"]
-        if "ok" in a and len(pqn) != 1:
-            ck.violation("expected exactly one verif:pq-names event, got %d" % len(pqn), {"kind": "hook-missing", "src": tests[i]["src"]})
-            continue
-        reserved = pqn[0]["reserved"] if pqn else None
-        if reserved is not None:
-            # what assign_names reserves: the lower-cased table names and aliases the user wrote (those the program refers to)
-            t_ = tests[i]
-            written = {n.lower() for n in t_["tables"] if n}
-            if not (set(reserved) <= written and t_["tables"][0].lower() in reserved):
-                ck.violation("reserved table names %s are not the lower-cased user names %s" % (reserved, sorted(written)), {"kind": "reserved", "src": t_["src"], "reserved": reserved})
-        tn = 0          # state of the table-name generator: nothing draws from it before assign_names
-        col_n = None    # state of the column-name generator, as the last ensure_column_name_result reported it
+        if "ok" not in a:
+            continue                                   # rejected programs: nothing to compare
+        if len(pqn) != 1:
+            bad("expected exactly one verif:pq-names event, got %d" % len(pqn)); continue
+        states = [e for h, e in evs if h == "namegen-state"]
+        if [(s_["site"], s_["at"]) for s_ in states] != [("assign_names", "start"), ("assign_names", "end")]:
+            # fail closed: the hook patch hooks/namegen-state.diff is not in this tree (or assign_names ran twice)
+            bad("verif:namegen-state events missing or unexpected (hooks/namegen-state.diff not applied?): %s" % [(s_.get("site"), s_.get("at")) for s_ in states]); continue
+        reserved = pqn[0]["reserved"]
+        if states[0].get("reserved") != reserved:
+            bad("the reserved set assign_names starts with differs from the final one", start=states[0].get("reserved"), final=reserved)
+        if repaired and "reserved_columns" not in pqn[0]:
+            bad("the source reserves column names but verif:pq-names does not report them"); continue
+        creserved = pqn[0]["reserved_columns"] if repaired else []
+        t_ = tests[i]
+        written = {n.lower() for n in t_["tables"] if n}
+        if not (set(reserved) <= written and t_["tables"][0].lower() in reserved):
+            bad("reserved table names %s are not the lower-cased user names %s" % (reserved, sorted(written)), reserved=reserved)
+        if repaired:
+            need = {n.lower() for n in t_["cols"] if n.lower() in src_i.lower()}
+            if not (need & set(creserved)) and need:
+                bad("no column name of the program is among the reserved column names %s" % creserved)
+
+        # ---- the table-name generator: every draw is logged, so its state is known exactly at every point
+        draws = 0
+        pos_draws = []                      # number of draws before event k
+        for h, e in evs:
+            pos_draws.append(draws)
+            if h == "namegen-draw":
+                if e["name"] != tp + str(draws):
+                    bad("draw %d of the table-name generator is %r" % (draws, e["name"]), event=e)
+                if e["accepted"] != (e["name"].lower() not in reserved):
+                    bad("draw %r: accepted=%s but reserved=%s" % (e["name"], e["accepted"], reserved), event=e)
+                draws += 1
+        for k, (h, e) in enumerate(evs):
+            if h == "namegen-state" and idx_of(e["table_gen"], tp) != pos_draws[k]:
+                bad("table-name generator stands at %s after %d draws" % (e["table_gen"], pos_draws[k]), event=e)
+            if h == "namegen" and e["site"] == "relvar" and "gen_before" not in e:
+                bad("verif:namegen events carry no generator state (hooks/namegen-state.diff not applied?)"); break
+            if h == "namegen" and e["site"] == "relvar" and idx_of(e["gen_after"], tp) != pos_draws[k]:
+                bad("relvar: gen_after %s after %d draws" % (e["gen_after"], pos_draws[k]), event=e)
+        # a direct call of AnchorContext::gen_table_name (alias of a wrapped sub-query): rejected draws, then an accepted one
+        run_start = None
+        for k, (h, e) in enumerate(evs):
+            if h == "namegen-draw" and e["site"] == "gen_table_name":
+                run_start = pos_draws[k] if run_start is None else run_start
+                if e["accepted"]:
+                    expr = "gen_table_name lower_ascii table_prefix %s %d" % (lst(reserved), run_start)
+                    ev_cases.setdefault(expr, ("pair", (e["name"], pos_draws[k] + 1), "gen_table_name", src_i))
+                    ck.stat("namegen-model", "gen_table_name/" + ("first" if run_start == pos_draws[k] else "skipped-reserved"))
+                    run_start = None
+        # ---- assign_names: the whole loop as one model run (list level), state from the start / end events
+        an = [(k, e) for k, (h, e) in enumerate(evs) if h == "namegen" and e["site"] == "assign_names"]
+        if an:
+            olds, news = [e["old"] for _, e in an], [e["new"] for _, e in an]
+            for j, (_, e) in enumerate(an):
+                if e["used"] != sorted(news[:j]):
+                    bad("assign_names step %d: used %s is not the set of names assigned before %s" % (j, e["used"], sorted(news[:j])), event=e)
+            expr = "assign_names lower_ascii table_prefix %s %s [] %d" % (lst(reserved), optlst(olds), idx_of(states[0]["table_gen"], tp))
+            ev_cases.setdefault(expr, ("listpair", (news, idx_of(states[1]["table_gen"], tp)), "assign_names(list)", src_i))
+            ck.stat("namegen-model", "assign_names(list)/%d decls" % min(len(an), 6))
+        # ---- RelVarNameAssigner: each step with its logged state; each scope (one atomic pipeline) as one model run
+        scopes = []                                     # open scopes: list of events
+        for k, (h, e) in enumerate(evs):
+            if not (h == "namegen" and e["site"] == "relvar"):
+                continue
+            n_events += 1
+            expr = "regen_r %d lower_ascii table_prefix %s %s %s %d" % (len(e["used"]) + 2, lst(reserved), lst(e["used"]), opt(e["old"]), idx_of(e["gen_before"], tp))
+            ev_cases.setdefault(expr, ("pair", (e["new"], idx_of(e["gen_after"], tp)), "relvar", src_i))
+            ck.stat("namegen-model", "relvar/" + ("kept" if e["new"] == e["old"] else "generated"))
+            if e["new"] != e["old"] and (e["new"].lower() in reserved or e["new"] in e["used"]):
+                bad("generated table name %r is reserved or in use" % e["new"], event=e)
+            home = None
+            if e["used"]:
+                for sc in reversed(scopes):
+                    if sorted(x["new"] for x in sc) == e["used"]:
+                        home = sc; break
+            if home is None:
+                if e["used"]:
+                    bad("relvar step whose used set %s belongs to no scope seen before" % e["used"], event=e); continue
+                home = []; scopes.append(home)
+            home.append(e)
+        for sc in scopes:
+            chained = all(sc[j]["gen_before"] == sc[j - 1]["gen_after"] for j in range(1, len(sc)))
+            ck.stat("namegen-model", "relvar(scope)/" + ("contiguous" if chained else "interleaved with an inner pipeline"))
+            if chained:
+                expr = "assign_names lower_ascii table_prefix %s %s [] %d" % (lst(reserved), optlst([x["old"] for x in sc]), idx_of(sc[0]["gen_before"], tp))
+                ev_cases.setdefault(expr, ("listpair", ([x["new"] for x in sc], idx_of(sc[-1]["gen_after"], tp)), "relvar(scope)", src_i))
+        # ---- columns: ensure_column_name and the anchor_split step with the logged state; anchor_split as one model run
         pending = None
-        # translate_select_item's invented aliases: `used` = column_names.values() at that moment = what the enclosing
+        for h, e in evs:
+            if h == "ensure_column_name":
+                pending = e
+            elif h == "ensure_column_name_result":
+                n_events += 1
+                if pending is None or pending["cid"] != e["cid"]:
+                    bad("ensure_column_name_result without its call"); continue
+                res = None if pending["decl"] == "wildcard" else e["name_after"]
+                expr = "ensure_column_name lower_ascii col_prefix %s %s %s %d" % (lst(creserved), decl_term(pending["decl"]), opt(pending["name_before"]), idx_of(pending["gen_before"], cp))
+                ev_cases.setdefault(expr, ("optpair", (res, idx_of(e["gen_after"], cp)), "ensure_column_name", src_i))
+                pending = None
+            elif h == "namegen" and e["site"] == "anchor_split":
+                n_events += 1
+                if "gen_before" not in e:
+                    bad("verif:namegen events carry no generator state (hooks/namegen-state.diff not applied?)"); break
+                expr = "split_step lower_ascii col_prefix %s %s %s %d" % (lst(creserved), lst(e["used"]), opt(e["old"]), idx_of(e["gen_before"], cp))
+                ev_cases.setdefault(expr, ("optpair", (e["new"], idx_of(e["gen_after"], cp)), "anchor_split", src_i))
+                ck.stat("namegen-model", "anchor_split/" + ("kept" if e["new"] == e["old"] else "regenerated"))
+            elif h == "anchor_split":
+                n_events += 1
+                decls = [decl_term(d) for d in e["in"]["decls"]]
+                if any(d is None for d in decls) or len(decls) != len(e["in"]["names"]):
+                    bad("anchor_split: a column at the split has no declaration", event=e["in"]); continue
+                if len(set(e["in"]["cols_at_split"])) != len(decls):
+                    ck.stat("namegen-model", "anchor_split(list)/same cid twice: step level only"); continue
+                cols = "[" + "; ".join("(%s, %s)" % (d, opt(b)) for d, b in zip(decls, e["in"]["names"])) + "]"
+                expr = "split_names lower_ascii col_prefix %s %s [] %d" % (lst(creserved), cols, idx_of(e["in"]["next_name"], cp))
+                ev_cases.setdefault(expr, ("optlistpair", ([c_["name"] for c_ in e["mid"]["new_columns"]], idx_of(e["mid"]["next_name"], cp)), "anchor_split(list)", src_i))
+                ck.stat("namegen-model", "anchor_split(list)/%d cols" % min(len(decls), 8))
+        # ---- translate_select_item's invented aliases: `used` = column_names.values() at that moment = what the enclosing
         # translate_select_items call saw at its start (its event follows those of its items) + the items named before
         group = []
         for h, e in evs:
@@ -551,79 +675,52 @@ def run():
                 names_now = {c: nm for c, nm in e["in"]["column_names"]}
                 for it in group:
                     if it["expected"] is None and it["item"] != "unnamed":
-                        n0 = idx_of(it["gen_before"], cp)
-                        expr = "select_item_alias col_prefix %s %d" % (lst(sorted(names_now.values())), n0)
-                        ev_cases.setdefault(expr, ((it["item"]["alias"], idx_of(it["gen_after"], cp)), "select_item", tests[i]["src"]))
+                        n_events += 1
+                        expr = "select_item_alias lower_ascii col_prefix %s %s %d" % (lst(creserved), lst(sorted(names_now.values())), idx_of(it["gen_before"], cp))
+                        ev_cases.setdefault(expr, ("pair", (it["item"]["alias"], idx_of(it["gen_after"], cp)), "select_item", src_i))
                         ck.stat("namegen-model", "select_item/alias" + ("" if it["item"]["alias"] == it["gen_before"] else "-regenerated"))
                     if it["name_after"] is not None:
                         names_now[it["cid"]] = it["name_after"]
                 group = []
-        for h, e in evs:
-            if h in ("select_item", "select_items"):
-                continue
-            n_events += 1
-            if h == "ensure_column_name":
-                pending = e
-            elif h == "ensure_column_name_result":
-                if pending is None or pending["cid"] != e["cid"]:
-                    ck.violation("ensure_column_name_result without its call", {"kind": "hook-order", "src": tests[i]["src"]})
-                    continue
-                n0, n1 = idx_of(pending["gen_before"], cp), idx_of(e["gen_after"], cp)
-                res = None if pending["decl"] == "wildcard" else e["name_after"]
-                expr = "ensure_column_name col_prefix %s %s %d" % (decl_term(pending["decl"]), opt(pending["name_before"]), n0)
-                ev_cases.setdefault(expr, ((res, n1), "ensure_column_name", tests[i]["src"]))
-                col_n, pending = n1, None
-            elif h == "namegen" and e["site"] == "anchor_split":
-                if col_n is None:
-                    ck.violation("anchor_split event without a preceding ensure_column_name_result", {"kind": "hook-order", "src": tests[i]["src"]})
-                    continue
-                expr = "split_step col_prefix %s %s %d" % (lst(e["used"]), opt(e["old"]), col_n)
-                ev_cases.setdefault(expr, (e["new"], "anchor_split", tests[i]["src"]))
-                ck.stat("namegen-model", "anchor_split/" + ("kept" if e["new"] == e["old"] else "regenerated"))
-            elif h == "namegen" and e["site"] in ("assign_names", "relvar") and reserved is not None:
-                expr = "regen_r %d lower_ascii table_prefix %s %s %s %d" % (len(e["used"]) + 2, lst(reserved), lst(e["used"]), opt(e["old"]), tn)
-                ev_cases.setdefault(expr, (e["new"], e["site"], tests[i]["src"]))
-                ck.stat("namegen-model", e["site"] + "/" + ("kept" if e["new"] == e["old"] else "generated"))
-                k = idx_of(e["new"], tp)
-                if e["new"] != e["old"] and k is not None:
-                    tn = k + 1                      # a generated name: the generator stands behind it
-                    if any(r == e["new"].lower() for r in reserved) or e["new"] in e["used"]:
-                        ck.violation("generated table name %r is reserved or in use" % e["new"], {"kind": "namegen-fresh", "src": tests[i]["src"], "event": e, "reserved": reserved})
     try:
         HN = ("From Coq Require Import List NArith.\nFrom PV Require Import Lib.ListX Model.Ident Model.NameGen Gen.GenIdentDialect.\n"
               "Import ListNotations.\nLocal Open Scope N_scope.\n")
-        groups = {"ensure_column_name": [], "anchor_split": [], "table": [], "select_item": []}
-        for expr, (exp, site, src) in ev_cases.items():
-            groups["table" if site in ("assign_names", "relvar") else site].append((expr, exp, site, src))
-        B = 60
-        batches = [(g, items[k:k + B]) for g, items in groups.items() for k in range(0, len(items), B)]
-        vals = coq_eval(HN, ["[" + "; ".join(x[0] for x in items) + "]" for _, items in batches])
+        items = [(expr,) + v for expr, v in ev_cases.items()]
+        B = 40
+        batches = {}
+        for it in items:
+            batches.setdefault(it[1], []).append(it)
+        blist = [(g, its[k:k + B]) for g, its in batches.items() for k in range(0, len(its), B)]
+        vals = coq_eval(HN, ["[" + "; ".join(x[0] for x in its) + "]" for _, its in blist])
 
         def name_of(v):
             return s_of(v[1]) if isinstance(v, tuple) and v[0] == "Some" else None
 
-        for (g, items), vs in zip(batches, vals):
-            for (expr, exp, site, src), v in zip(items, vs):
+        def view(g, v):
+            if not (isinstance(v, tuple) and v[0] == "Some"):
+                return "<loop did not end>"
+            x, n1 = v[1]
+            if g == "pair":
+                return (s_of(x), n1)
+            if g == "optpair":
+                return (name_of(x), n1)
+            if g == "listpair":
+                return ([s_of(y) for y in x], n1)
+            return ([name_of(y) for y in x], n1)            # optlistpair
+
+        for (g, its), vs in zip(blist, vals):
+            for (expr, _, exp, site, src), v in zip(its, vs):
                 ck.count("namegen-model", expr)
-                if g == "ensure_column_name":
-                    got = (name_of(v[0]), v[1])
-                    ok = got == tuple(exp)
-                elif g == "select_item":
-                    got = (s_of(v[1][0]), v[1][1]) if isinstance(v, tuple) and v[0] == "Some" else "<loop did not end>"
-                    ok = got == tuple(exp)
-                elif g == "anchor_split":
-                    got = name_of(v[1][0]) if isinstance(v, tuple) and v[0] == "Some" else "<loop did not end>"
-                    ok = got == exp
-                else:
-                    got = s_of(v[1][0]) if isinstance(v, tuple) and v[0] == "Some" else "<loop did not end>"
-                    ok = got == exp
-                if not ok:
-                    ck.violation("Model/NameGen.v differs from prqlc at %s: model %r, prqlc %r" % (site, got, exp),
-                                 {"kind": "namegen-model", "site": site, "expr": expr, "model": got, "impl": exp, "src": src})
+                got = view(g, v)
+                want = (exp[0], exp[1]) if g in ("pair", "optpair") else (list(exp[0]), exp[1])
+                if got != want:
+                    ck.violation("Model/NameGen.v differs from prqlc at %s: model %r, prqlc %r" % (site, got, want),
+                                 {"kind": "namegen-model", "site": site, "expr": expr, "model": repr(got), "impl": repr(want), "src": src})
     except RuntimeError as ex:
         ck.coverage["model_eval_error_namegen"] = str(ex)[-400:]
     ck.coverage["namegen_events"] = n_events
     ck.coverage["namegen_programs"] = len(hook_idx)
+    ck.coverage["col_names_reserved"] = repaired
 
     ck.coverage["names"] = len(names)
     ck.coverage["e2e_rejected_by_resolver"] = rejected
